@@ -74,3 +74,29 @@ func VerifResetTSS() {
 	tss = make(map[string]*tssItem)
 	tssQ = make(tssQueue, 0, tssCap)
 }
+
+// VerifTSSClient returns a copy of one client's item (ok = false: the client
+// has no state) without copying the whole store.
+func VerifTSSClient(key string) (VerifTSSItem, bool) {
+	tssMu.Lock()
+	defer tssMu.Unlock()
+	it, ok := tss[key]
+	if !ok {
+		return VerifTSSItem{}, false
+	}
+	x := VerifTSSItem{Key: it.key, Qval: it.qval, Qidx: it.qidx}
+	for i := 0; i != it.len; i++ {
+		x.Entries = append(x.Entries, VerifTSSEntry{Rxt: it.buf[i].rxt, Txt: it.buf[i].txt})
+	}
+	return x, true
+}
+
+// VerifTSSQueueHead returns key and queue value of the root of the priority queue.
+func VerifTSSQueueHead() (key string, qval ntp.Time64, ok bool) {
+	tssMu.Lock()
+	defer tssMu.Unlock()
+	if len(tssQ) == 0 {
+		return "", ntp.Time64{}, false
+	}
+	return tssQ[0].key, tssQ[0].qval, true
+}
